@@ -369,3 +369,30 @@ contract('gnpy.topology.spectrum_assignment.reversed_oms', name='gnpy.topology.s
                   ('unpaired_recorded_as_none',
                    'all(implies(not any(OPPOSITE(oms_list[i], oms_list[j]) for j in range(3)), oms_list[i].reversed_oms is None) for i in range(3))')],
          modifies=['oms_list[0].reversed_oms', 'oms_list[1].reversed_oms', 'oms_list[2].reversed_oms'], use_at_calls=False, max_paths=3000)
+
+# ---- the band of a line without amplifier is the default band handed in, and the path / OMS helpers hand in the SI band
+contract('gnpy.core.utils.find_common_range', name='gnpy.core.utils.find_common_range[no amplifier]', props=['C15', 'C07'],
+         params={'amp_bands': const([]), 'default_band_f_min': real(), 'default_band_f_max': real(), 'default_spacing': real(),
+                 'default_design_bands': const(None)},
+         ensures=[('the_default_band', "len(result) == 1 and result[0]['f_min'] == default_band_f_min and result[0]['f_max'] == default_band_f_max")],
+         use_at_calls=False, modifies=[])
+
+
+def _rec_common_range(it, a, k):
+    g = it.p.live['equipment']['ghost_call']
+    for nm, v in zip(('amp_bands', 'default_band_f_min', 'default_band_f_max', 'default_spacing'), a):
+        g[nm] = v
+    g.update(k)
+    return [{'f_min': a[1], 'f_max': a[2], 'spacing': None}]
+
+
+from pyvc.vals import Builtin as _Builtin2
+contract('gnpy.topology.request.find_elements_common_range', name='gnpy.topology.request.find_elements_common_range[line without amplifier]',
+         props=['C15', 'C07'], overrides={('gnpy.topology.request', 'find_common_range'): lambda it: _Builtin2('common', _rec_common_range)},
+         params={'el_list': lst(obj('Roadm', uid=string()), obj('Fused', uid=string()), obj('Fiber', uid=string())),
+                 'equipment': dct(SI=dct(default=obj('<ns>', f_min=real(), f_max=real(), spacing=real())), ghost_call=dct())},
+         let={'asked': "equipment['ghost_call']", 'si': "equipment['SI']['default']"},
+         ensures=[('default_band_is_the_si_band', "asked['default_band_f_min'] == si.f_min and asked['default_band_f_max'] == si.f_max and "
+                                                  "asked['default_spacing'] == si.spacing"),
+                  ('no_amplifier_no_amplifier_band', "len(asked['amp_bands']) == 0")],
+         use_at_calls=False, modifies=["equipment['ghost_call'][*]"])
